@@ -22,7 +22,25 @@ Typing rules implemented (CPython's):
   if c: x = e   (no return)      let x := if c then e else x
   if c: ... return               if c then <branch> else <rest>
   isinstance(param, int/float)   decided statically from the declared parameter types
-Evaluation order is Python's: sub-expressions left to right, every operation that can raise becomes a `bind` at its position."""
+Evaluation order is Python's: sub-expressions left to right, every operation that can raise becomes a `bind` at its position.
+
+Second part (the operators of Duration / Interval, module functions):
+  int // int, int % int, divmod(int, int) by a NON-constant      py_int_floordiv / py_int_mod / py_int_divmod (ZeroDivisionError), binds
+  int / int                                                       py_int_truediv (bind) ; divmod with a float operand: py_float_divmod (bind)
+  x.as_integer_ratio() on a float                                 py_as_integer_ratio (bind), a pair
+  a, b = <pair>                                                   let '(a, b) := ...
+  x op= e                                                         x = x op e ;  `a if c else b`, `and` / `or` on pure boolean operands
+  parameters of declared type dur (a Duration), ptd (a PLAIN datetime.timedelta, given as the microseconds it holds: .days .seconds
+  .microseconds are the fields of its normal form td_norm, .total_seconds() is total_seconds; any other attribute fails closed),
+  value (an operand that is only handed on)
+  isinstance(x, int / float / timedelta / Duration / a tuple of these)   decided statically from the declared type of x
+  self.__class__(...) / Duration(...)                             the nine constructor slots, absent = 0: all integers -> gen_duration_new ;
+                                                                  a float `seconds` with days, microseconds, milliseconds, minutes, hours, weeks
+                                                                  statically 0 -> gen_duration_new_fsec seconds years months ; else Unsupported.
+                                                                  self.__class__ is read as Duration (operands of class exactly Duration / Interval)
+  timedelta.__new__(cls, D, x, 0, 0, 0, 0, 0), x a float          Spec/TdFloatMixed.td_of_days_fsec D x
+  f(args) for a module function / x.m(args) for a method          the translation registered for these argument types (fails closed otherwise)
+  return NotImplemented / an int / a float / a Duration / (int, Duration)      Ok RNotImpl / RInt / RFloat / RDur / RPair (functions with an `opres` result)"""
 from __future__ import annotations
 
 import ast
@@ -31,6 +49,9 @@ import math
 from .py2gallina import Unsupported
 
 Z, F, B, TD, DUR, LZ = "Z", "sf", "bool", "td", "dur", "list Z"
+PTD, VALUE, OPRES = "ptd", "value", "opres"
+SLOTS = ["days", "seconds", "microseconds", "milliseconds", "minutes", "hours", "weeks", "years", "months"]
+PTD_ATTRS = {"days": "ptd_days", "seconds": "ptd_seconds", "microseconds": "ptd_micro"}
 EXN = {"ValueError": "E_ValueError", "TypeError": "E_TypeError", "OverflowError": "E_OverflowError",
        "ZeroDivisionError": "E_ZeroDivisionError"}
 LIM53 = 2 ** 53
@@ -73,9 +94,12 @@ class FloatTr:
     """Translates one function.  `fields`: attribute -> (record projection, type) of the record `dur`;
     `methods`: name -> (coq name, return type, monadic?) for calls self.<name>() ; `consts`: imported integer constants name -> value."""
 
-    def __init__(self, where, consts, fields, ctor_order, cache_fields, methods):
+    def __init__(self, where, consts, fields, ctor_order, cache_fields, methods, funcs=None):
         self.where, self.consts, self.fields, self.ctor_order = where, consts, fields, ctor_order
         self.cache_fields, self.methods = cache_fields, methods
+        self.funcs = funcs or {}       # (module function name, argument types) -> (coq name, return type, monadic?)
+        self.opres = False             # wrap the returned value into `opres`
+        self.sig_optional = False      # a _signature with a non-integer value is recorded as [] (float-constructed Duration)
         self.n = 0
         self.used_bind = False
         self.pre = []
@@ -144,7 +168,36 @@ class FloatTr:
                     proj, ty = self.fields[e.attr]
                     return V(f"({proj} {env['self'].text})", ty)
                 self.fail(e, "attribute of self that is neither stored before nor a record field")
+            if isinstance(e.value, ast.Name) and e.value.id in env:
+                o = env[e.value.id]
+                if o.ty == DUR and e.attr in self.fields:
+                    proj, ty = self.fields[e.attr]
+                    return V(f"({proj} {atom(o.text)})", ty)
+                if o.ty == PTD and e.attr in PTD_ATTRS:
+                    return V(f"({PTD_ATTRS[e.attr]} (td_norm {atom(o.text)}))", Z)
             self.fail(e, "attribute")
+        if isinstance(e, ast.IfExp):
+            c = self.expr(e.test, env, st)
+            n = len(self.pre)
+            a = self.expr(e.body, env, st)
+            b = self.expr(e.orelse, env, st)
+            if len(self.pre) != n:
+                self.fail(e, "an operation that can raise inside a conditional expression")
+            if c.ty != B or a.ty != b.ty:
+                self.fail(e, "conditional expression: types")
+            return V(f"(if {c.text} then {atom(a.text)} else {atom(b.text)})", a.ty)
+        if isinstance(e, ast.BoolOp):
+            vs = []
+            for i, x in enumerate(e.values):
+                n = len(self.pre)
+                v = self.expr(x, env, st)
+                if i > 0 and len(self.pre) != n:
+                    self.fail(e, "an operation that can raise on the right of and / or (short-circuit)")
+                if v.ty != B:
+                    self.fail(e, "and / or on non-boolean operands (truthiness is not in the fragment)")
+                vs.append(v)
+            op = " || " if isinstance(e.op, ast.Or) else " && "
+            return V("(" + op.join(atom(v.text) for v in vs) + ")", B)
         if isinstance(e, ast.UnaryOp):
             a = self.expr(e.operand, env, st)
             if isinstance(e.op, ast.USub):
@@ -177,12 +230,16 @@ class FloatTr:
             if isinstance(op, ast.Mult):
                 return V(f"({a.text} * {b.text})", Z, a.known * b.known if both else None)
             if isinstance(op, (ast.FloorDiv, ast.Mod)):
-                if b.known is None or b.known == 0:
-                    self.fail(e, "integer // or % by something that is not statically a non-zero constant (ZeroDivisionError not modelled)")
+                if b.known == 0:
+                    self.fail(e, "integer // or % by the constant 0")
+                if b.known is None:
+                    return V(self.bind(e, ("py_int_floordiv " if isinstance(op, ast.FloorDiv) else "py_int_mod ") + f"{atom(a.text)} {atom(b.text)}"), Z)
                 if isinstance(op, ast.FloorDiv):
                     return V(f"({a.text} / {b.text})", Z, a.known // b.known if both else None)
                 return V(f"({a.text} mod {b.text})", Z, a.known % b.known if both else None)
-            self.fail(e, "integer operator (int / int true division is not in the fragment)")
+            if isinstance(op, ast.Div):
+                return V(self.bind(e, f"py_int_truediv {atom(a.text)} {atom(b.text)}"), F)
+            self.fail(e, "integer operator")
         if F in (a.ty, b.ty) and a.ty in (Z, F) and b.ty in (Z, F):
             divisor_known = b.known
             fa = self.to_float(e.left, a)
@@ -230,9 +287,38 @@ class FloatTr:
         if len(args) != 7 or e.keywords:
             self.fail(e, "timedelta constructor: expected exactly 7 positional arguments (days, seconds, microseconds, milliseconds, minutes, hours, weeks)")
         vs = [self.expr(a, env, st) for a in args]
-        if any(v.ty != Z for v in vs):
-            self.fail(e, "timedelta constructor with a non-integer argument (only the integer constructor td_of_int_args is in the fragment)")
-        return V(self.bind(e, "td_of_int_args " + " ".join(atom(v.text) for v in vs)), TD)
+        if all(v.ty == Z for v in vs):
+            return V(self.bind(e, "td_of_int_args " + " ".join(atom(v.text) for v in vs)), TD)
+        if vs[0].ty == Z and vs[1].ty == F and all(v.ty == Z and v.known == 0 for v in vs[2:]):
+            return V(self.bind(e, f"td_of_days_fsec {atom(vs[0].text)} {atom(vs[1].text)}"), TD)
+        self.fail(e, "timedelta constructor: all integers, or integer days + float seconds with every other argument statically 0")
+
+    def ctor(self, e, env, st) -> V:
+        """self.__class__(...) / Duration(...): the nine slots"""
+        if len(e.args) > len(SLOTS):
+            self.fail(e, "too many constructor arguments")
+        given = {}
+        for slot, a in zip(SLOTS, e.args):
+            given[slot] = self.expr(a, env, st)
+        for kw in e.keywords:
+            if kw.arg not in SLOTS or kw.arg in given:
+                self.fail(e, "constructor keyword")
+            given[kw.arg] = self.expr(kw.value, env, st)
+        vs = [given.get(sl, V("0", Z, 0)) for sl in SLOTS]
+        if all(v.ty == Z for v in vs):
+            return V(self.bind(e, "gen_duration_new " + " ".join(atom(v.text) for v in vs)), DUR)
+        if vs[1].ty == F and all(v.ty == Z and v.known == 0 for v in [vs[0]] + vs[2:7]) and vs[7].ty == Z and vs[8].ty == Z:
+            return V(self.bind(e, f"gen_duration_new_fsec {atom(vs[1].text)} {atom(vs[7].text)} {atom(vs[8].text)}"), DUR)
+        self.fail(e, "constructor call: all integers, or a float `seconds` with only years / months beside it")
+
+    def apply(self, e, entry, recv, args):
+        cname, rty, monadic, ptys, takes_self = entry
+        if len(args) != len(ptys) or any(v.ty != pt for v, pt in zip(args, ptys)):
+            self.fail(e, f"call with argument types {[v.ty for v in args]}, expected {ptys}")
+        text = " ".join([cname] + ([atom(recv.text)] if takes_self else []) + [atom(v.text) for v in args])
+        if monadic:
+            return V(self.bind(e, text), rty)
+        return V(f"({text})", rty)
 
     def call(self, e, env, st) -> V:
         f = e.func
@@ -251,31 +337,50 @@ class FloatTr:
                 elif a.ty == F:
                     return V(self.bind(e, ("py_int_trunc " if f.id == "int" else "py_round_half_even ") + atom(a.text)), Z)
                 self.fail(e, f"{f.id}() of a {a.ty}")
+            if f.id == "divmod" and len(e.args) == 2 and not e.keywords:
+                a = self.expr(e.args[0], env, st)
+                b = self.expr(e.args[1], env, st)
+                if a.ty == Z and b.ty == Z:
+                    if b.known == 0:
+                        self.fail(e, "divmod by the constant 0")
+                    if b.known is not None:
+                        return V(f"({a.text} / {b.text}, {a.text} mod {b.text})", (Z, Z))
+                    return V(self.bind(e, f"py_int_divmod {atom(a.text)} {atom(b.text)}"), (Z, Z))
+                if F in (a.ty, b.ty) and a.ty in (Z, F) and b.ty in (Z, F):
+                    fa = self.to_float(e.args[0], a)
+                    fb = self.to_float(e.args[1], b)
+                    return V(self.bind(e, f"py_float_divmod {atom(fa.text)} {atom(fb.text)}"), (F, F))
+                self.fail(e, "divmod operand types")
             if f.id == "timedelta":
                 return self.td_ctor(e, e.args, env, st)
-            self.fail(e, "call of an unknown function")
-        if isinstance(f, ast.Attribute) and isinstance(f.value, ast.Name):
-            obj, name = f.value.id, f.attr
-            if obj == "timedelta" and name == "__new__":
+            if f.id == "Duration":
+                return self.ctor(e, env, st)
+            if not e.keywords:
+                args = [self.expr(a, env, st) for a in e.args]
+                key = (f.id, tuple(v.ty for v in args))
+                if key in self.funcs:
+                    cname, rty, monadic = self.funcs[key]
+                    return self.apply(e, (cname, rty, monadic, [v.ty for v in args], False), None, args)
+            self.fail(e, "call of an unknown function (or with unregistered argument types)")
+        if isinstance(f, ast.Attribute):
+            name = f.attr
+            if isinstance(f.value, ast.Name) and f.value.id == "self" and name == "__class__":
+                return self.ctor(e, env, st)
+            if isinstance(f.value, ast.Name) and f.value.id == "timedelta" and name == "__new__":
                 if not e.args or not (isinstance(e.args[0], ast.Name) and e.args[0].id == "cls"):
                     self.fail(e, "timedelta.__new__ without cls")
                 return self.td_ctor(e, e.args[1:], env, st)
-            if obj in env and env[obj].ty == TD and name == "total_seconds" and not e.args and not e.keywords:
-                return V(f"(total_seconds {atom(env[obj].text)})", F)
-            if obj == "self" and self.self_kind == DUR and name in self.methods:
-                cname, rty, monadic, ptys, takes_self = self.methods[name]
-                if e.keywords or len(e.args) != len(ptys):
-                    self.fail(e, "method call arity")
-                args = []
-                for a, pt in zip(e.args, ptys):
-                    v = self.expr(a, env, st)
-                    if v.ty != pt:
-                        self.fail(e, f"method argument of type {v.ty}, expected {pt}")
-                    args.append(atom(v.text))
-                text = " ".join([cname] + ([atom(env["self"].text)] if takes_self else []) + args)
-                if monadic:
-                    return V(self.bind(e, text), rty)
-                return V(f"({text})", rty)
+            if isinstance(f.value, ast.Name) and f.value.id not in env:
+                self.fail(e, "method call on an unknown object")
+            if isinstance(f.value, (ast.Name, ast.Call)) and not e.keywords:
+                recv = self.expr(f.value, env, st)
+                if recv.ty in (TD, PTD) and name == "total_seconds" and not e.args:
+                    return V(f"(total_seconds {atom(recv.text)})", F)
+                if recv.ty == F and name == "as_integer_ratio" and not e.args:
+                    return V(self.bind(e, f"py_as_integer_ratio {atom(recv.text)}"), (Z, Z))
+                if recv.ty == DUR and name in self.methods:
+                    args = [self.expr(a, env, st) for a in e.args]
+                    return self.apply(e, self.methods[name], recv, args)
         self.fail(e, "call")
 
     # ------------------------------------------------------------------ static tests
@@ -289,13 +394,14 @@ class FloatTr:
             if isinstance(t.op, ast.Or):
                 return True if any(r is True for r in rs) else (False if all(r is False for r in rs) else None)
             return False if any(r is False for r in rs) else (True if all(r is True for r in rs) else None)
-        if (isinstance(t, ast.Call) and isinstance(t.func, ast.Name) and t.func.id == "isinstance" and len(t.args) == 2
-                and isinstance(t.args[0], ast.Name) and t.args[0].id in self.param_types and isinstance(t.args[1], ast.Name)):
-            pty, cls = self.param_types[t.args[0].id], t.args[1].id
-            if cls == "int":
-                return pty == Z
-            if cls == "float":
-                return pty == F
+        if (isinstance(t, ast.Call) and isinstance(t.func, ast.Name) and t.func.id == "isinstance" and len(t.args) == 2 and not t.keywords
+                and isinstance(t.args[0], ast.Name) and t.args[0].id in self.param_types):
+            pty = self.param_types[t.args[0].id]
+            classes = t.args[1].elts if isinstance(t.args[1], ast.Tuple) else [t.args[1]]
+            table = {"int": (Z,), "float": (F,), "timedelta": (DUR, PTD), "Duration": (DUR,)}
+            if pty not in (Z, F, DUR, PTD) or not all(isinstance(c, ast.Name) and c.id in table for c in classes):
+                return None
+            return any(pty in table[c.id] for c in classes)
         return None
 
     # ------------------------------------------------------------------ statements
@@ -338,19 +444,35 @@ class FloatTr:
         s, rest = stmts[0], stmts[1:]
         if isinstance(s, ast.Expr) and isinstance(s.value, ast.Constant) and isinstance(s.value.value, str):
             return self.block(rest, env, st)
+        if isinstance(s, ast.AugAssign):
+            s2 = ast.Assign(targets=[s.target], value=ast.BinOp(left=s.target, op=s.op, right=s.value), lineno=s.lineno)
+            ast.fix_missing_locations(s2)
+            return self.block([s2] + rest, env, st)
         if isinstance(s, ast.Assign):
             if len(s.targets) != 1:
                 self.fail(s, "multiple assignment")
             tgt = s.targets[0]
             if isinstance(tgt, ast.Tuple):
                 c = s.value
-                if not (len(tgt.elts) == 2 and isinstance(c, ast.Call) and isinstance(c.func, ast.Name) and c.func.id == "divmod"
+                const_divmod = False
+                if (len(tgt.elts) == 2 and isinstance(c, ast.Call) and isinstance(c.func, ast.Name) and c.func.id == "divmod"
                         and len(c.args) == 2 and not c.keywords):
-                    self.fail(s, "tuple assignment other than `q, r = divmod(a, b)`")
-                a = self.expr(c.args[0], env, st)
-                b = self.expr(c.args[1], env, st)
-                if a.ty != Z or b.ty != Z or b.known is None or b.known == 0:
-                    self.fail(s, "divmod: integers with a statically non-zero constant divisor only")
+                    n0, pre0 = self.n, list(self.pre)
+                    a = self.expr(c.args[0], env, st)
+                    b = self.expr(c.args[1], env, st)
+                    const_divmod = a.ty == Z and b.ty == Z and b.known is not None and b.known != 0
+                    if not const_divmod:
+                        self.n, self.pre = n0, pre0
+                if not const_divmod:
+                    v = self.expr(c, env, st)
+                    if not (isinstance(v.ty, tuple) and len(v.ty) == len(tgt.elts) and all(isinstance(x, ast.Name) for x in tgt.elts)):
+                        self.fail(s, "tuple assignment: the value is not a pair / the targets are not plain names")
+                    pre = self.take_pre()
+                    env2 = dict(env)
+                    for x, ty in zip(tgt.elts, v.ty):
+                        env2[x.id] = V("v_" + x.id, ty)
+                    names = ", ".join("v_" + x.id for x in tgt.elts)
+                    return self.wrap(pre, f"let '({names}) := {v.text} in\n  " + self.block(rest, env2, st))
                 pre = self.take_pre()
                 ta = self.fresh()
                 l1, env1, st1 = self.store(tgt.elts[0], V(f"({ta} / {b.text})", Z), env, st)
@@ -381,9 +503,13 @@ class FloatTr:
             self.fail(s, "dict literal other than the _signature of Duration.__new__ (keys in the modelled order)")
         vs = [self.expr(x, env, st) for x in s.value.values]
         if any(v.ty != Z for v in vs):
-            self.fail(s, "_signature with a non-integer value")
+            if not (self.sig_optional and all(v.ty in (Z, F) for v in vs)):
+                self.fail(s, "_signature with a non-integer value")
+            text = "[]"            # the signature of a float-constructed Duration is not recorded (the record holds integers only)
+        else:
+            text = "[" + "; ".join(v.text for v in vs) + "]"
         pre = self.take_pre()
-        l, env2, st2 = self.store(tgt, V("[" + "; ".join(v.text for v in vs) + "]", LZ), env, st)
+        l, env2, st2 = self.store(tgt, V(text, LZ), env, st)
         return self.wrap(pre, l + self.block(rest, env2, st2))
 
     def ret(self, s, env, st):
@@ -406,6 +532,25 @@ class FloatTr:
                     self.fail(s, f"field {a} is never stored")
             self.used_bind = True
             return "Ok (mkdur " + " ".join(atom(x) for x in vals) + ")"
+        if self.opres:
+            self.used_bind = True
+            self.ret_ty = OPRES
+            if isinstance(s.value, ast.Name) and s.value.id == "NotImplemented":
+                return "Ok RNotImpl"
+            if isinstance(s.value, ast.Tuple):
+                vs = [self.expr(x, env, st) for x in s.value.elts]
+                pre = self.take_pre()
+                if [v.ty for v in vs] != [Z, DUR]:
+                    self.fail(s, "returned tuple other than (int, Duration)")
+                return self.wrap(pre, f"Ok (RPair {atom(vs[0].text)} {atom(vs[1].text)})")
+            v = self.expr(s.value, env, st)
+            pre = self.take_pre()
+            con = {Z: "RInt", F: "RFloat", DUR: "RDur"}
+            if v.ty == OPRES:
+                return self.wrap(pre, f"Ok {atom(v.text)}")
+            if v.ty not in con:
+                self.fail(s, f"returned value of type {v.ty}")
+            return self.wrap(pre, f"Ok ({con[v.ty]} {atom(v.text)})")
         v = self.expr(s.value, env, st)
         pre = self.take_pre()
         self.ret_ty = v.ty
@@ -433,6 +578,14 @@ class FloatTr:
             b = self.block(s.orelse + rest, env, st)
             return self.wrap(pre, f"if {c.text} then ({a}) else ({b})")
         # merge: both branches are sequences of pure assignments
+        def desugar(stmts):
+            out = []
+            for x in stmts:
+                if isinstance(x, ast.AugAssign):
+                    x = ast.fix_missing_locations(ast.Assign(targets=[x.target], value=ast.BinOp(left=x.target, op=x.op, right=x.value), lineno=x.lineno))
+                out.append(x)
+            return out
+        s = ast.If(test=s.test, body=desugar(s.body), orelse=desugar(s.orelse), lineno=s.lineno)
         targets = []
         for br in (s.body, s.orelse):
             for x in br:
@@ -468,21 +621,26 @@ class FloatTr:
         return self.wrap(pre, l + self.block(rest, env2, st2))
 
     # ------------------------------------------------------------------ entry points
-    def function(self, fn: ast.FunctionDef, coq_name, param_types, self_kind, is_abs=False):
-        """param_types: list of (python name, type) for the parameters after self / cls.  Returns (definition text, return type, monadic?)."""
+    def function(self, fn: ast.FunctionDef, coq_name, param_types, self_kind, is_abs=False, fixed=None, opres=False):
+        """param_types: list of (python name, type) for the parameters after self / cls (all of them for a module function: self_kind None).
+        fixed: parameter -> integer constant (the function is specialised to calls that pass / default these values).
+        Returns (definition text, return type, monadic?)."""
+        fixed = fixed or {}
         names = [a.arg for a in fn.args.args]
         if fn.args.vararg or fn.args.kwarg or fn.args.kwonlyargs or fn.args.posonlyargs:
             self.fail(fn, "parameter kinds")
-        if names[:1] not in (["self"], ["cls"]) or names[1:] != [n for n, _ in param_types]:
+        head = [] if self_kind is None else names[:1]
+        if (self_kind is not None and head not in (["self"], ["cls"])) or names[len(head):] != [n for n, _ in param_types]:
             self.fail(fn, f"parameters {names} differ from the modelled ones")
         for d in fn.args.defaults:
             if not (isinstance(d, ast.Constant) and d.value == 0):
                 self.fail(fn, "parameter default other than 0")
-        self.self_kind, self.is_abs = self_kind, is_abs
+        self.self_kind, self.is_abs, self.opres = self_kind, is_abs, opres
         self.param_types = dict(param_types)
-        env0 = {n: V("v_" + n, t) for n, t in param_types}
+        env0 = {n: (V(zlit(fixed[n]), Z, fixed[n]) if n in fixed else V("v_" + n, t)) for n, t in param_types}
         if self_kind == DUR:
             env0["self"] = V("v_self", DUR)
+            self.param_types["self"] = DUR
         body = list(fn.body)
         self.pure, self.n, self.pre, self.used_bind, self.ret_ty = False, 0, [], False, None
         out = self.block(body, env0, {})
@@ -491,7 +649,13 @@ class FloatTr:
             out = self.block(body, env0, {})
         monadic = not self.pure
         rty = DUR if self_kind == TD else self.ret_ty
-        params = ([("v_self", DUR)] if self_kind == DUR else []) + [("v_" + n, t) for n, t in param_types]
-        sig = " ".join(f"({n} : {t})" for n, t in params)
-        rt = f"result {rty}" if monadic else rty
+        params = ([("v_self", DUR)] if self_kind == DUR else []) + [("v_" + n, t) for n, t in param_types if n not in fixed]
+        sig = " ".join(f"({n} : {self.coq_type(t)})" for n, t in params)
+        rt = f"result {self.coq_type(rty)}" if monadic else self.coq_type(rty)
         return f"Definition {coq_name} {sig} : {rt} :=\n  {out}.\n", rty, monadic
+
+    @staticmethod
+    def coq_type(t):
+        if isinstance(t, tuple):
+            return "(" + " * ".join(FloatTr.coq_type(x) for x in t) + ")"
+        return {PTD: "Z"}.get(t, t)
